@@ -114,7 +114,9 @@ func (db *DB) Select(query interface{}, args ...interface{}) (tx *DB) {
 
 	switch v := query.(type) {
 	case []string:
-		tx.Statement.Selects = v
+		// copy: appending the extra args below must not write into the caller's slice
+		tx.Statement.Selects = make([]string, len(v), len(v)+len(args))
+		copy(tx.Statement.Selects, v)
 
 		for _, arg := range args {
 			switch arg := arg.(type) {
